@@ -23,7 +23,8 @@ PROP = "C01"
 DRIVER = Driver("driver_c01", "Drivers/C01.lean")
 NKEYS = 4
 SIZE = 1000
-CFGS = ["raw", "facade", "facade_secret", "raw_purge", "facade_purge", "facade_pickle"]
+CFGS = ["raw", "facade", "facade_secret", "raw_purge", "facade_purge", "facade_pickle",
+        "raw_fine", "facade_fine", "facade_secret_fine", "raw_purge_fine"]
 
 TRUSTED = [
     "Lean 4.33.0 kernel; axioms of every theorem audited to be within {propext, Classical.choice, Quot.sound}",
@@ -38,12 +39,16 @@ TRUSTED = [
     "serializer configurations are run but not modelled: C09 covers decode(encode v) = v",
     "TTL spellings: harness/memhist.py `spell` builds the Python object (int / float / timedelta / str) for a number of ticks and hands "
     "the plain tick count to the model - the two sides never share a conversion; Python's own timedelta normalisation and str/int are trusted",
+    "clock resolution: the `*_fine` configurations tell the driver their ticks per second on the `case` line; only get_expire depends on it (Model/Fine.lean getExpireR, "
+    "proved equal to the ideal map's at every resolution and to getExpire at 8: theorem ttl_query_at_any_resolution)",
+    "container values are opaque tokens for the model (theorem get_many_returns_any_value quantifies over every Val); the harness maps them by type and equality",
     "capacity eviction excluded (size=1000 >> keys); see C11",
 ]
 
 
-def model_lines(eff):
-    return ["case %d" % SIZE] + [l for l, _ in eff]
+def model_lines(eff, cfg):
+    res = memhist.res_of(cfg)
+    return [f"case {SIZE}" if res == 8 else f"case {SIZE} {res}"] + [l for l, _ in eff]
 
 
 def compare(eff, answers):
@@ -64,7 +69,7 @@ def compare(eff, answers):
 
 def run_case(cfg, ops):
     eff, stats = memhist.execute(cfg, SIZE, ops)
-    answers = DRIVER.ask(model_lines(eff))
+    answers = DRIVER.ask(model_lines(eff, cfg))
     return eff, answers, stats
 
 
@@ -92,10 +97,10 @@ def report(chk: Check, cfg, ops, origin):
         "first_diff_vs_model": dm,
         "first_diff_vs_spec": ds,
         "origin": origin,
-        "ttl_spellings": [d for d in map(memhist.describe, small) if d],
+        "ttl_spellings": [d for d in (memhist.describe(l, memhist.res_of(cfg)) for l in small) if d],
         "replay_cmd": "./check C01 --replay <this file>",
     }
-    how = f"; TTLs as handed to the facade: {', '.join(replay['ttl_spellings'])}" if replay["ttl_spellings"] else ""
+    how = f"; as handed to the code: {', '.join(replay['ttl_spellings'])}" if replay["ttl_spellings"] else ""
     if ds is not None:
         chk.violation(
             f"in-memory backend disagrees with the ideal TTL map at step {ds}: `{eff[ds][0]}` -> impl {eff[ds][1]}, {answers[ds + 1]} (config {cfg}){how}",
@@ -136,18 +141,31 @@ def run(chk: Check) -> int:
         # a turn of the real loop; the long deadlines are then queried and read, not crossed)
         spelled = memhist.CONFIGS[cfg]["facade"] and rnd % 3 != 0
         big = spelled and rnd % 3 == 2 and not locked
+        # every other round the value alphabet also holds container / empty payloads (set, frozenset, list, dict, tuple,
+        # nested, empty ones, b"", ""): every read command has to hand them back as they are, in every configuration
+        vals = memhist.VALS + memhist.CONTAINER_VALS if rnd % 2 == 0 else None
+        res = memhist.res_of(cfg)
+        if res != 8:
+            # the finer clock (ticks of 2**-20 s): TTLs that are not a whole number of milli- / microseconds, down to one
+            # tick; half of the time advances aim at a pending deadline (1000 / 300 / 40 / 8 / 1 ticks before it - i.e.
+            # inside its last millisecond -, exactly at it, 1 / 8 ticks after it)
+            cases.append((f"gen:{i}", cfg, memhist.gen_history(
+                chk.rng, NKEYS, maxlen, advs=memhist.FINE_ADVS, ttls=memhist.FINE_TTLS, vals=vals, chase=True, res=res,
+                forms=["f", "f", "td", "i", "ss"] if spelled else None,
+                maxadv=8 * 1024 if memhist.CONFIGS[cfg]["purge"] else None)))
+            continue
         cases.append((f"gen:{i}", cfg, memhist.gen_history(
             chk.rng, NKEYS, maxlen, advs=memhist.PHASE_ADVS if locked else None, ttls=memhist.PHASE_TTLS if locked else None,
             forms=memhist.SPELL_FORMS if spelled else None, bigttls=memhist.BIG_TTLS if big else None,
-            maxadv=4800 if memhist.CONFIGS[cfg]["purge"] else None)))
+            maxadv=4800 if memhist.CONFIGS[cfg]["purge"] else None, vals=vals)))
     # run the implementation on every case, then the model driver ONCE on all of them (one `case` line resets it)
     runs = []
     for origin, cfg, ops in cases:
         eff, stats = memhist.execute(cfg, SIZE, ops)
         runs.append((origin, cfg, ops, eff, stats))
     lines, spans = [], []
-    for _, _, _, eff, _ in runs:
-        ml = model_lines(eff)
+    for _, cfg, _, eff, _ in runs:
+        ml = model_lines(eff, cfg)
         spans.append((len(lines), len(lines) + len(ml)))
         lines.extend(ml)
     all_answers = DRIVER.ask(lines) if lines else []
@@ -185,7 +203,11 @@ def run(chk: Check) -> int:
                 "instant of a tick on either side of the purge task's step; through the facade two histories in three spell every TTL as int / float / "
                 "timedelta / duration string (ttl_spellings_commands counts the commands per Python type handed over; timedelta_with_days = `days` field non-zero), "
                 "one in three with TTLs from 90 s to 30 days and half of its time advances aimed at 8 / 1 ticks before, exactly at, 1 / 8 ticks after a pending deadline "
-                "(purge task on: advances of at most ten minutes); a case is non-trivial iff at least one command touched an expired-but-unpurged entry, "
+                "(purge task on: advances of at most ten minutes); the `*_fine` configurations run on a clock of 2**20 ticks per second (all instants and TTLs dyadic, so "
+                "every float sum and comparison in the code is exact): TTLs of 1, 2, 500 ... ticks, a tick under / over 1, 2, 5, 10 ms, 1/1024 s, 1 s +- a tick, half of the advances aimed "
+                "at 1000 / 300 / 40 / 8 / 1 ticks before, exactly at, 1 / 8 ticks after a pending deadline, purge interval 1/1024 s in raw_purge_fine; every other round the value alphabet also "
+                "holds container / empty payloads (set, frozenset, list, dict, tuple, nested and empty ones, b'', ''), opaque tokens for the model, recognised by type and equality on the way back; "
+                "a case is non-trivial iff at least one command touched an expired-but-unpurged entry, "
                 "answered exactly at a deadline, or a real purge sweep was spliced in; distinct = distinct (config, op list)",
         "samples": samples,
         "corpus_cases": ncorpus,
@@ -193,7 +215,7 @@ def run(chk: Check) -> int:
         "interesting_states_cases": interesting,
         "ttl_spellings_commands": spellings,
         "trusted_base": TRUSTED,
-        "partial": "non-dyadic TTLs, more than 4 keys / 40 commands and the float formula of get_expire beyond eighths are not sampled; "
+        "partial": "non-dyadic TTLs (decimal TTLs such as 2.01 are represented by dyadic neighbours at 2**-20 s: the sum `now + ttl` would not be exact for them), get_match (not a command of the property), more than 4 keys / 40 commands and the float formula of get_expire beyond eighths are not sampled; "
                    "TTL spellings not sampled here: callables (the commands do not accept them), strings with trailing digits after a unit or with "
                    "characters the parser refuses (C02), negative durations; deadlines of hours and days are crossed with the purge task off only",
     })
@@ -206,8 +228,9 @@ def replay(chk: Check, path: str) -> int:
     eff, answers, _ = run_case(c["config"], c["ops"])
     dm, ds = compare(eff, answers)
     for op in c["ops"]:
-        if memhist.describe(op):
-            print(f"# `{op}`: {memhist.describe(op)} handed to the facade; the model gets the ticks")
+        d = memhist.describe(op, memhist.res_of(c["config"]))
+        if d:
+            print(f"# `{op}`: {d} handed to the code; the model gets ticks / opaque tokens")
     for (l, o), a in zip(eff, answers[1:]):
         print(f"{l:40s} impl={o:20s} {a}")
     if dm is None and ds is None:
